@@ -511,6 +511,8 @@ impl SchedStats {
 pub struct Recovered {
     pub opened: Opened,
     pub usable: Result<(), String>,
+    /// usability under default chunk limits and a zero-size cache
+    pub usable_tiny: Result<(), String>,
 }
 
 pub struct HistCtx {
@@ -923,7 +925,23 @@ fn recover(spec: &HistSpec, files: &[(String, Vec<u8>)], ctx: &mut HistCtx, stat
             }
         }
     }
-    let r = Recovered { opened: run.opened, usable: usable_res };
+    // C05 "stays usable ... with consistent results" does not fix the recovering
+    // side's configuration: recover the same image once more under larger chunk
+    // limits and a zero-size payload cache (the last chunk is then re-opened
+    // for appends and every read goes through the cache-miss path)
+    let mut usable_tiny: Result<(), String> = Ok(());
+    if usability && usable_res.is_ok() {
+        if let Opened::Ok { .. } = run.opened {
+            let tiny = Cfg::default().with_cache(Some(0), Some(0));
+            let (run_t, usable_t) = imagex::open_image(files, &tiny, true);
+            match (&run_t.opened, usable_t) {
+                (Opened::Ok { .. }, Ok(_)) => {}
+                (Opened::Ok { .. }, Err(e)) => usable_tiny = Err(e),
+                (other, _) => usable_tiny = Err(format!("open under the other configuration: {:?}", other)),
+            }
+        }
+    }
+    let r = Recovered { opened: run.opened, usable: usable_res, usable_tiny };
     ctx.images.insert(h, r.clone());
     r
 }
@@ -1091,6 +1109,31 @@ fn crash_oracle(
                             spec,
                             "recovered-store-not-usable",
                             format!("crash at step {} (image {}): {}", step_no, describe(&img), e),
+                            json!({"schedule": schedule_json(dfs), "crash_step": step_no, "image": describe(&img)}),
+                        ));
+                    }
+                    if let Err(e) = &rec.usable_tiny {
+                        // F3 mechanism: the entry appended after recovery (term of `last`,
+                        // next index) has a log id below an id journalled earlier
+                        let appended = (state.last.map(|l| l.0).unwrap_or(1), next_index(state.last.as_ref()));
+                        // ids journalled in the recovered prefix
+                        let ents = entries.as_ref().ok();
+                        let mut jbest = 0usize;
+                        for (j, m) in pl.prefix_states.iter().enumerate() {
+                            if m.st == *state && ents == Some(&entries_of(m)) {
+                                jbest = j;
+                            }
+                        }
+                        let high = pl.records[..jbest].iter().filter_map(|(r, _, _)| if let MRec::Append(id, _) = r { Some(*id) } else { None }).max();
+                        let key = if e.contains("Chunk not found") && Some(appended) <= high {
+                            "F3:read-error-on-entry-reappended-below-truncated-id"
+                        } else {
+                            "recovered-store-not-usable-under-cache-pressure"
+                        };
+                        vios.push(svio(
+                            spec,
+                            key,
+                            format!("crash at step {} (image {}), recovered with default chunk limits and a zero-size cache: {}", step_no, describe(&img), e),
                             json!({"schedule": schedule_json(dfs), "crash_step": step_no, "image": describe(&img)}),
                         ));
                     }
